@@ -168,6 +168,7 @@ type Thread struct {
 	chosen  int // alternative chosen for a select
 	decided bool // chosen at a decision point: record the post-operation state key
 	blockedSince int
+	free         chan struct{} // pass-through mode (no scheduler): closed when the goroutine has finished
 }
 
 // PointInfo describes one decision point for the explorer.
@@ -426,7 +427,13 @@ func Go(f func()) {
 func GoNamed(name string, f func()) *Thread {
 	s := cur
 	if s == nil {
-		panic("GoNamed without scheduler")
+		// pass-through mode (free-running race pass): a plain goroutine
+		t := &Thread{Name: name, free: make(chan struct{})}
+		go func() {
+			defer close(t.free)
+			f()
+		}()
+		return t
 	}
 	p := s.running
 	p.spawned++
@@ -440,6 +447,10 @@ func GoNamed(name string, f func()) *Thread {
 // Join blocks until t has finished.
 func Join(t *Thread) {
 	s := cur
+	if s == nil && t != nil && t.free != nil {
+		<-t.free
+		return
+	}
 	if s == nil || s.poison {
 		return
 	}
